@@ -37,7 +37,14 @@ class Driver:
         if len(ns) == 1:
             d0 = ns[0][1]['dest']
             if not d0['pr']:
-                self.sidv = b.local_term(d0['l'])
+                l0 = d0['l']
+                if not b.locals[l0]['names']:
+                    # the result goes through a temporary: the state variable is the named local assigned from it
+                    for bi, si, pl, st0 in b.stores():
+                        if si != 'term' and not pl['pr'] and b.locals[pl['l']]['names'] and st0['r'].get('k') == 'use' and st0['r']['a'].get('k') in ('copy', 'move') and st0['r']['a']['p']['l'] == l0 and not st0['r']['a']['p']['pr']:
+                            l0 = pl['l']
+                            break
+                self.sidv = ('v', b.locals[l0]['names'][0], l0) if b.locals[l0]['names'] else b.local_term(l0)
         if self.over:
             self.state = param_of_type(b, r'automaton::OverlappingState')
             self.cur = ('f', self.state, 'at')
